@@ -641,6 +641,18 @@ def fam_c09(tier, seed):
                 sc["tags"].append("chunked-body-not-read-to-eof")
             scs.append(sc)
             k += 1
+    # a request that asks for a protocol upgrade (its body is the rest of the connection) but is answered like any other,
+    # unread: the connection is over, what follows is never parsed as a request -- whatever the Connection list looks like
+    for cv in ("upgrade", "keep-alive, Upgrade", "Upgrade, keep-alive", "foo,UPGRADE"):
+        for fin in ("respond", "drop", "writer"):
+            for ver in ("1.1", "1.0"):
+                up = Msg(method="POST", version=ver, conn=cv, framing="upgrade", body_len=0,
+                         extra_headers=[("Upgrade", "verif")], plan=finishes[fin]())
+                d, j, ln = conn([up], 0, trailing=b"B" * 20 + b"GET /c0m9 HTTP/1.1\r\nHost: smuggled\r\n\r\n")
+                sc = scenario("C09-%04d" % k, "C09", [(d, j, ln)], _single_app(), horizon_ms=100)
+                sc["tags"] = ["boundary", "upgrade-answered-plainly", "conn:" + cv, fin, "v" + ver]
+                scs.append(sc)
+                k += 1
     # large bodies of which little or nothing is read (the discard has a long way to go: 70 KB, 300 KB, 1.2 MB)
     for tag, kw in (("cl70000", dict(framing="cl", body_len=70000)), ("cl300000", dict(framing="cl", body_len=300000)),
                     ("ch150000", dict(framing="chunked", body_len=150000, chunks=[60000, 1, 89999])),
@@ -709,12 +721,15 @@ def fam_c03(tier, seed):
         scs.append(sc)
         k += 1
     for n in (0, 1, 700, 3000):
-        up = Msg(conn="upgrade", framing="upgrade", body_len=n, extra_headers=[("Upgrade", "verif")], plan={"ans": {"how": "upgrade", "len": 10}})
-        d, j, ln = conn([up], 0)
-        sc = scenario("C03-%04d" % k, "C03", [(d, j, ln)], _single_app(), horizon_ms=100)
-        sc["tags"] = ["framing", "upgrade", "n:%d" % n]
-        scs.append(sc)
-        k += 1
+        for cv in ("upgrade", "Upgrade", "keep-alive, Upgrade", "Upgrade, keep-alive", "foo,upgrade", "UPGRADE , TE"):
+            if tier == "quick" and cv != "upgrade" and n in (1, 3000) and rng.random() > 0.5:
+                continue
+            up = Msg(conn=cv, framing="upgrade", body_len=n, extra_headers=[("Upgrade", "verif")], plan={"ans": {"how": "upgrade", "len": 10}})
+            d, j, ln = conn([up], 0)
+            sc = scenario("C03-%04d" % k, "C03", [(d, j, ln)], _single_app(), horizon_ms=100)
+            sc["tags"] = ["framing", "upgrade", "n:%d" % n, "conn:" + cv]
+            scs.append(sc)
+            k += 1
     return scs
 
 def fam_c11(tier, seed):
@@ -764,13 +779,31 @@ def fam_c11(tier, seed):
             sc["tags"] = ["readahead", ptag, "pipe:" + "+".join(combo)] + (["small-only"] if small_only else [])
             scs.append(sc)
             k += 1
+    # several application threads already blocked in recv() (the usual worker arrangement), each keeping the request
+    # it gets until the end: every request of the pipeline must reach one of them without any of them answering
+    for nthreads in (2, 3, 4):
+        for combo in (("none",) * 4, ("none", "b1", "b1024", "none"), ("b1",) * 3, ("none",) * 6):
+            if len(combo) > nthreads + 2:
+                continue
+            msgs = [kinds[c]() for c in combo]
+            for m in msgs:
+                m.plan = keep()
+            d, j, ln = conn(msgs, 0)
+            # (each thread takes ONE request and keeps it: a thread that came back for more would hide a request that
+            #  was queued without waking anybody)
+            apps = [{"prog": [{"op": "recv", "kind": "recv"}, {"op": "handle", "sel": "all", "mode": "inline"}]} for _ in range(max(nthreads, len(combo)))]
+            sc = scenario("C11-%04d" % k, "C11", [(d, j, ln)], apps, horizon_ms=100, single=False)
+            sc["tags"] = ["readahead", "workers-blocked", "demote", "threads:%d" % len(apps), "pipe:" + "+".join(combo)]
+            scs.append(sc)
+            k += 1
     return scs
 
 def fam_c12(tier, seed):
     rng = _rng("C12", seed)
     scs = []
     k = 0
-    conns_hdr = [None, "close", "keep-alive", "Close", "KEEP-ALIVE", "upgrade", "foo", "keep-alive, close", "foo, upgrade", "Keep-Alive"]
+    conns_hdr = [None, "close", "keep-alive", "Close", "KEEP-ALIVE", "upgrade", "foo", "keep-alive, close", "foo, upgrade", "Keep-Alive",
+                 "keep-alive, Upgrade", "Upgrade, keep-alive", "close,keep-alive", "TE, Close"]
     versions = ["1.1", "1.0"]
     cases = list(itertools.product(versions, conns_hdr))
     for n in (1, 2, 3):
@@ -831,6 +864,7 @@ _CON_SPELL = {
     (True, False, True, False): ["upgrade", "Upgrade", "foo, UPGRADE"],
     (True, False, False, False): ["foo", "TE", "x-y, z"],
     (True, True, False, True): ["keep-alive, close", "Close, Keep-Alive"],
+    (True, False, True, True): ["keep-alive, Upgrade", "Upgrade, keep-alive", "Keep-Alive,upgrade"],
 }
 
 def connloop_scenarios(tier, seed, prop):
